@@ -241,6 +241,29 @@ def _reassigned(func, name):
     return False
 
 
+def r7(p, rep):
+    rep.rule("C03.R7", "every local is assigned before it is read on every feasible path (no UnboundLocalError)", "definite assignment over the CFG (may-be-unassigned dataflow; loops optimistic, correlated guards / flags recognised)", floor=300)
+    from sa.defassign import DefiniteAssignment
+
+    for f in p.funcs.values():
+        if not isinstance(f.node, (ast.FunctionDef, ast.AsyncFunctionDef)) or f.module.name in OFF_PATH_MODULES:
+            continue
+        da = DefiniteAssignment(f.node, f.params)
+        if not da.locals:
+            continue
+        bad = {}
+        for name, x, node, why in da.reports():
+            key = f"{f.qualname}:local:{name}"
+            if why is None:
+                bad.setdefault(key, (x, name))
+            else:
+                rep.ok("C03.R7", key + ":guarded", f"{f.module.rel}:{x.lineno}", f"`{name}` is read on a path without assignment only syntactically: {why}")
+        for key, (x, name) in bad.items():
+            rep.violation("C03.R7", key, f"{f.module.rel}:{x.lineno}", f"local `{name}` can be read before any assignment (a path from the function entry reaches this read without passing an assignment of `{name}`): UnboundLocalError, an internal exception type")
+        if not bad:
+            rep.ok("C03.R7", f"{f.qualname}:locals", f.loc, f"{len(da.locals)} locals are assigned on every path before each read")
+
+
 def run(p, rep, tier):
     r1(p, rep)
     r2(p, rep, tier)
@@ -249,6 +272,7 @@ def run(p, rep, tier):
     r4(p, rep)
     r5(p, rep)
     r6(p, rep)
+    r7(p, rep)
     # clauses shared with C02 / C12 whose violation surfaces as an internal exception type of an entry point
     from . import c02, c12
 
@@ -256,4 +280,18 @@ def run(p, rep, tier):
     c12.r7(p, rep)  # an exclusive end position used as a caret position trips the asserts of the error constructors
     c12.r8(p, rep)  # a number test that disagrees with int() lets int() raise instead of the parser
     rep.assume("exceptions raised by third-party code (numpy, sympy) outside the wrapped call are not modelled")
+    # inventory (does not gate): assert statements in the validation layer, split by whether the tested expression
+    # mentions a parameter of the enclosing function (input-dependent candidates) or only locals / constants
+    inv = {}
+    for f in p.funcs.values():
+        if not any(f.module.name.endswith(m) for m in VALIDATION_MODULES):
+            continue
+        params = set(f.params)
+        for n in walk_no_nested(f.node):
+            if isinstance(n, ast.Assert):
+                dep = any(isinstance(x, ast.Name) and x.id in params for x in ast.walk(n.test))
+                d = inv.setdefault(f.module.rel, {"asserts": 0, "mention_a_parameter": 0})
+                d["asserts"] += 1
+                d["mention_a_parameter"] += dep
+    rep.info["assert_inventory_validation_layer"] = inv
     rep.info["undecided"] = "input-dependent assert statements and value-level validation; only the structural clauses R1-R6 are decided"
